@@ -126,7 +126,7 @@ class C08(Prop):
                "aioswitcher.api.messages:StateMessageParser.get_thermostat_temp", "aioswitcher.api.messages:StateMessageParser.get_thermostat_remote_id",
                "aioswitcher.api.messages:SwitcherLoginResponse.__post_init__"]
     min_evaluations = {"quick": 40_000, "thorough": 400_000}
-    budget_s = {"quick": 60, "thorough": 900}
+    budget_s = {"quick": 300, "thorough": 900}
 
     def selftest(self):
         reply_captures()
